@@ -1,8 +1,9 @@
 import CodeLimit.Lemmas.Independence
 import CodeLimit.Lemmas.IndependenceAcc
 import CodeLimit.Lemmas.IndependenceTok
+import CodeLimit.Lemmas.IndependenceFile
 /-!
-# C06 (engine part) - results do not depend on set-iteration order or on the id counter
+# C06 - results do not depend on set-iteration order, on the id counter, or on what was analysed before
 
 Property theorems only (helper lemmas live in `CodeLimit/Lemmas/Independence.lean`,
 `FindAllLang.lean`, `CoReach.lean`).
@@ -14,6 +15,11 @@ before (model parameter `base`). The compiled tables *do* depend on both (see th
 the end), the results of `match`, `starts_with`, `nfa_match` and `find_all` do not: for every
 pattern `r` over `Identity` atoms, every input `w`, all orders and all counter values the
 results - including error outcomes, of which there are none - are equal.
+
+The last section lifts this from one pattern to the whole per-file analysis (`extract_headers`,
+`scan_file`, `_analyze_file`: `analyze_indep`) and to a process that analyses many files in a row
+(`analyse_many_isolated`).  "Two scans of the same tree" is `C06scan.two_scans_same_tree`
+(Props/C06scan.lean, on the report of `Pipeline.scan`).
 -/
 namespace CL.C06
 
@@ -228,5 +234,126 @@ theorem order_matters_without_commutation :
       ≠ (nfaToDfa (compile (.alt (.atom 0) (.atom 1)) 0) List.reverse).map
         (fun D => findAll (dfaMachine D sharedCounter) [()]) := by
   decide +kernel
+
+/-! ## the whole per-file analysis
+
+`Schedule` (`Lemmas/IndependenceFile.lean`): for the `i`-th header pattern of the language, the
+value of the id counter when its header expression and its follow-up expression are compiled and
+the set-iteration order used - the inputs of a call that are NOT its arguments.  `Schedule.Ok`:
+every order enumerates each element exactly once. -/
+
+/-- **`Language.extract_headers` depends on the language and the tokens only**: the headers of all
+patterns of the language (concatenated in pattern order, Java's filter applied) are the same under
+any two schedules - any counter values, any iteration orders, different ones for every pattern -/
+theorem extract_headers_indep {sched sched' : Schedule} (h : sched.Ok) (h' : sched'.Ok)
+    (L : Language) (toks : List Tok) :
+    extractHeadersWith sched L toks = extractHeadersWith sched' L toks := by
+  rw [extractHeadersWith_eq h, extractHeadersWith_eq h']
+
+/-- **`scan_file` depends on the language and the token list only**: same measurements (names,
+positions, lengths, order) or the same exception under any two schedules -/
+theorem scan_file_indep {sched sched' : Schedule} (h : sched.Ok) (h' : sched'.Ok)
+    (L : Language) (all : List Tok) : scanFileWith sched L all = scanFileWith sched' L all := by
+  rw [scanFileWith_eq h, scanFileWith_eq h']
+
+/-- **the measurements of a file depend only on its language and content** (`_analyze_file` on the
+text and the lexer's output): same measurements and line total, or the same exception, under any
+two schedules; in particular every schedule gives the result of the executable model `analyze`
+(the schedule "counter 1, identity order", which the correspondence run ties to the code under
+several hash seeds). -/
+theorem analyze_indep {sched sched' : Schedule} (h : sched.Ok) (h' : sched'.Ok)
+    (L : Language) (code : Str) (raw : List RawTok) :
+    analyzeWith sched L code raw = analyzeWith sched' L code raw ∧
+    analyzeWith sched L code raw = analyze L code raw := by
+  rw [analyzeWith_eq h, analyzeWith_eq h']
+  exact ⟨rfl, rfl⟩
+
+/-- the executable model is the instance "counter 1, identity order" -/
+theorem analyze_model (L : Language) (code : Str) (raw : List RawTok) :
+    analyzeWith Schedule.model L code raw = analyze L code raw :=
+  analyzeWith_eq Schedule.model_ok L code raw
+
+/-- **Isolation per file, over histories.**  A process analyses files one after the other.  Between
+two analyses it keeps a state `g` of any type, from which the hidden inputs of the next call
+derive (`Pr.sched g`: the id counter is wherever the earlier compilations left it, the set orders
+are whatever seed and history make them), and which every call changes in an arbitrary way that
+may depend on its outcome (`Pr.next`: also for a file whose matching aborts midway with an
+exception).  Then every file's result is the result of analysing that file alone in a fresh
+process: the `k`-th result is `analyze` of the `k`-th file, whatever came before it.
+(The model keeps NO other state between calls - in particular every `find_all` starts from fresh
+copies of the predicates, `tokAcceptor.init`; that the code does so is the correspondence part, and
+`fresh_predicate_copies_needed` shows that it matters.) -/
+theorem analyse_many_isolated {γ : Type} (Pr : Proc γ) (hok : ∀ g, (Pr.sched g).Ok) (g : γ)
+    (pre : List (Language × Str × List RawTok)) (x : Language × Str × List RawTok)
+    (post : List (Language × Str × List RawTok)) :
+    (analyseMany Pr g (pre ++ x :: post))[pre.length]? = some (analyze x.1 x.2.1 x.2.2) ∧
+    analyseMany Pr g (pre ++ x :: post) = (pre ++ x :: post).map (fun y => analyze y.1 y.2.1 y.2.2) := by
+  have h := analyseMany_eq Pr hok g (pre ++ x :: post)
+  refine ⟨?_, h⟩
+  rw [h, List.map_append, List.getElem?_append_right (by simp)]
+  simp
+
+/-! ### non-vacuity and the witness for fresh predicate copies -/
+
+/-- a one-pattern brace language with the Java-like header of `hpJ` -/
+def LJ : Language := ⟨[hpJ], false, false, none⟩
+
+/-- `foo ( x ) throws E {` `}` on two lines -/
+def toksJ2 : List Tok := toksJ ++ [⟨3, 0, [125], 2, 0⟩]
+
+/-- a schedule unlike the model's: counters 17 / 50 and reversed sets for the first pattern,
+other values for the rest -/
+def schedJ : Schedule := fun i => if i = 0 then (17, 50, List.reverse) else (3 * i, 7, id)
+
+theorem schedJ_ok : schedJ.Ok := by
+  intro i
+  unfold schedJ
+  split
+  · exact isOrder_reverse
+  · exact isOrder_id
+
+/-- both sides of `scan_file_indep` evaluated -/
+example : scanFileWith schedJ LJ toksJ2 = .ok [⟨[1], 1, 0, 2, 1, 2⟩] ∧
+    scanFileWith Schedule.model LJ toksJ2 = .ok [⟨[1], 1, 0, 2, 1, 2⟩] ∧
+    scanFile LJ toksJ2 = .ok [⟨[1], 1, 0, 2, 1, 2⟩] := by
+  refine ⟨?_, ?_, ?_⟩ <;> decide +kernel
+
+/-- a process whose state is the id counter: every analysis advances it by an amount that depends
+on the outcome (here: 100 after an exception, 10 per measurement otherwise) -/
+def procJ : Proc Nat where
+  sched g := fun i => (g + i, g + 2 * i + 1, if g % 2 = 0 then id else List.reverse)
+  next g _ r := match r with | .error _ => g + 100 | .ok ms => g + 10 * ms.1.length + 1
+
+theorem procJ_ok : ∀ g, (procJ.sched g).Ok := by
+  intro g i
+  show IsOrder (if g % 2 = 0 then id else List.reverse)
+  split
+  · exact isOrder_id
+  · exact isOrder_reverse
+
+/-- `analyse_many_isolated` with its hypothesis discharged: in the process `procJ`, started at
+any counter value, a file analysed after ANY other files gets the result it gets alone -/
+example (g : Nat) (pre : List (Language × Str × List RawTok)) (x : Language × Str × List RawTok) :
+    (analyseMany procJ g (pre ++ [x]))[pre.length]? = some (analyze x.1 x.2.1 x.2.2) :=
+  (analyse_many_isolated procJ procJ_ok g pre x []).1
+
+/-- an acceptor whose `Balanced` copies are NOT fresh: the depths `d0` are left over from an
+earlier use of the same predicate objects (what `Pattern.__init__` without the per-pattern
+`deepcopy` would give after a match that was abandoned inside a parenthesis) -/
+def leftoverDepths (d0 : Depths) : Acceptor Pred Depths Tok := { tokAcceptor with init := d0 }
+
+/-- **fresh predicate copies are needed**: with a depth of 1 left in the `Balanced("(", ")")`
+predicate, `find_all` of the header expression of `hpJ` on `foo ( x ) throws E {` reports `x )` and
+`E {` (inside a parenthesis `Balanced` accepts every token), with fresh copies it reports
+`foo ( x )` - the result of a file would depend on the file before it -/
+theorem fresh_predicate_copies_needed :
+    (compileTok hpJ.expr).map (fun D =>
+        (findAll (dfaMachine D tokAcceptor) toksJ).map (·.map (fun m => (m.s, m.e))))
+      = .ok (.ok [(0, 4)]) ∧
+    (compileTok hpJ.expr).map (fun D =>
+        (findAll (dfaMachine D (leftoverDepths [(.balanced (.value [40]) (.value [41]), 1)])) toksJ).map
+          (·.map (fun m => (m.s, m.e))))
+      = .ok (.ok [(2, 4), (5, 7)]) := by
+  constructor <;> decide +kernel
 
 end CL.C06
